@@ -17,7 +17,7 @@ RULE = (
     "from_penalty_smooth with/without rank and log_pdet (penalty constructors also with variances 1e-4..1e8); 40 000 samples "
     "per sampling case, batched variances of very different scales; float32 and x64. Bijector: points in +-[1e-3,30] "
     "(x64: 3e4), inverse applied to independently built arrays. Copula also with batched dependence. Copula: dependence on a grid and random in (-1,1) incl. "
-    "+-0.999, points of the unit square, validate_args False/True, eager and jit. Also: integer-typed precision matrices; user-supplied tol and supplied rank at precision norms 1e-7/1e-3/1e4; NumPy loc/precision buffers overwritten after construction. non-trivial = MVN case "
+    "+-0.999, points of the unit square, validate_args False/True, eager and jit. Also: integer-typed precision matrices; user-supplied tol and supplied rank at precision norms 1e-7/1e-3/1e4; NumPy loc/precision buffers overwritten after construction. Round 5: forward log-det-Jacobian up to |x| = 1e6 (x64: 1e12) against the closed form. non-trivial = MVN case "
     "with rank<m and a non-zero null-space shift, copula case with |rho|>0.1; distinct by parameter hash"
 )
 REQUIRED = ["mvn_logprob_vs_oracle", "mvn_nullspace_invariance", "mvn_constructors_agree", "mvn_samples_in_range_space",
